@@ -55,6 +55,8 @@ pub enum FaultMode {
     None,
     /// exactly one fault, at the decision site with this index (counted in generation order)
     Site(usize),
+    /// two faults at nearby decision sites (interplay of violations inside one construct)
+    Sites(usize, usize),
     /// every decision site faults with probability num/den
     Noise(u32, u32),
 }
@@ -167,6 +169,7 @@ impl Gen {
         let hit = match self.cfg.fault {
             FaultMode::None => false,
             FaultMode::Site(k) => k == idx,
+            FaultMode::Sites(a, b) => a == idx || b == idx,
             FaultMode::Noise(n, d) => self.frng.chance(n, d),
         };
         if hit {
@@ -1156,4 +1159,29 @@ pub fn chain_by_index(mut idx: u64) -> Vec<Op> {
             o
         })
         .collect()
+}
+
+/// programs with two faults at nearby sites
+pub fn gen_fault2(seed: u64, cfg: &Cfg, max_variants: usize) -> Vec<(String, Prog)> {
+    let mut c = cfg.clone();
+    c.fault = FaultMode::None;
+    let mut g = Gen::new(seed, c.clone());
+    let base = g.program();
+    let sites = g.sites;
+    let mut rng = Rng::new(seed ^ 0x2222_7777);
+    let mut out = vec![];
+    let mut tried = 0;
+    while out.len() < max_variants && tried < 6 * max_variants && sites > 1 {
+        tried += 1;
+        let k = rng.below(sites);
+        let d = 1 + rng.below(6);
+        let mut c2 = c.clone();
+        c2.fault = FaultMode::Sites(k, k + d);
+        let mut g2 = Gen::new(seed, c2);
+        let p = g2.program();
+        if g2.faults.len() >= 2 && p != base {
+            out.push((g2.faults.join("+"), p));
+        }
+    }
+    out
 }
